@@ -214,7 +214,11 @@ void AsyncPipe::Impl::cleanup()
         return;
 
     TBOX_VERIF_POINT("AsyncPipe.cleanup_before_stop");
-    stop_signal_ = true;
+    {
+        //! stop_signal_ is read by the backend thread in its wait predicate under full_buffers_mutex_
+        std::lock_guard<std::mutex> lg(full_buffers_mutex_);
+        stop_signal_ = true;
+    }
     TBOX_VERIF_POINT("AsyncPipe.cleanup_before_notify");
     full_buffers_cv_.notify_all();
     backend_thread_.join();
